@@ -17,8 +17,8 @@ OPF = {"ge": operator.ge, "le": operator.le, "ne": operator.ne, "lt": operator.l
 
 
 def correspondence(ctx):
-    n = 6000 if ctx.thorough else 1200
-    psize = 60 if ctx.thorough else 28
+    n = 25000 if ctx.thorough else 1200
+    psize = 90 if ctx.thorough else 28
     for name in A.ALL:
         stream = "ops:" + name
         if not A.has_model(name):
